@@ -27,8 +27,10 @@ type rtOutcome struct {
 
 const maxClones = 24
 
-// cloneBroken: <Root>.Clone panicked once in this run (known defect clone-panic on a nil optional
-// recursive field): later histories skip the clone-based aliasing checks.
+// cloneBroken: <Root>.Clone panicked or dropped optional presence once in this run (the defects
+// clone-panic on a nil optional recursive field and clone-optional, both repaired by /repo 82431a4
+// and kept as oracles: a recurrence is a violation): later histories skip the clone-based
+// aliasing checks so that one defect is reported once.
 var cloneBroken = os.Getenv("VERIF_HGEN_NOCLONE") != ""
 
 // checkRead reads the stream with rd's package and compares every record with want (dumps in
@@ -116,7 +118,7 @@ func checkRead(prop, prefix string, root *rootSpec, stream []byte, want []string
 					fail(sig, "record %d: reader.Record.Clone() differs from the record at %s (record vs clone)", i, diff)
 					c = reflect.Value{}
 					if sig == "clone-optional" {
-						cloneBroken = true // known defect (Clone drops optional presence): reported once per run
+						cloneBroken = true // Clone drops optional presence (repaired by 82431a4): reported once per run
 					}
 				}
 			}
